@@ -39,11 +39,11 @@ type World struct {
 	// every function with a body that belongs to a module package
 	// (declared functions, methods, anonymous functions, generic instances,
 	// package initialisers)
-	ModFuncs []*ssa.Function
-	AllFuncs map[*ssa.Function]bool
-	cg       *callgraph.Graph
-	Files    int
-	CanaryOK bool   // canary overlay type-checked
+	ModFuncs  []*ssa.Function
+	AllFuncs  map[*ssa.Function]bool
+	cg        *callgraph.Graph
+	Files     int
+	CanaryOK  bool   // canary overlay type-checked
 	CanaryWhy string // reason when it did not
 }
 
